@@ -356,3 +356,6 @@ PROPS["C09"] = {
 
 from props_C20 import ENTRY as _C20
 PROPS["C20"] = _C20
+
+from props_C13 import ENTRY as _C13
+PROPS["C13"] = _C13
